@@ -55,14 +55,16 @@ impl SourceFile {
         let file_name = path
             .file_name()
             .ok_or(std::io::Error::other("invalid path"))?;
-        let module_name = if file_name == "mod.roto" {
-            path.parent()
-                .ok_or(std::io::Error::other("invalid path"))?
-                .file_name()
-                .ok_or(std::io::Error::other("invalid path"))?
-        } else {
-            path.file_stem()
-                .ok_or(std::io::Error::other("invalid path"))?
+        // A `mod.roto` is named after its directory. When that directory has
+        // no name in the path (`mod.roto`, `./mod.roto`, `/mod.roto`) the file
+        // stem is used; such a path can only be the root of a single-file
+        // script, which is renamed to `pkg` by `FileTree::single_file`.
+        let dir_name = path.parent().and_then(|p| p.file_name());
+        let module_name = match dir_name {
+            Some(dir) if file_name == "mod.roto" => dir,
+            _ => path
+                .file_stem()
+                .ok_or(std::io::Error::other("invalid path"))?,
         }
         .to_string_lossy()
         .to_string();
